@@ -54,9 +54,9 @@ def main():
     p = os.path.join(VERIF, "DESIGN.md")
     s = open(p).read()
     for tag, fn in (("SEEDS", seeds), ("COVERAGE", coverage), ("REFACTORS", refactors)):
-        pat = re.compile(r"(<!-- %s-BEGIN -->\n).*?(\n<!-- %s-END -->)" % (tag, tag), re.S)
+        pat = re.compile(r"(<!-- %s-BEGIN -->\n)(.*?)(<!-- %s-END -->)" % (tag, tag), re.S)
         if pat.search(s):
-            s = pat.sub(lambda m: m.group(1) + fn() + m.group(2), s)
+            s = pat.sub(lambda m: m.group(1) + fn() + "\n" + m.group(3), s)
     open(p, "w").write(s)
 
 
